@@ -426,6 +426,20 @@ def differ(c, typ, kind):
             return None
         i, j = nz[-1]
         d.A[i, j] = A[i, j] + 1.0 if A[i, j] + 1.0 not in (0.0, A[i, j]) else A[i, j] * 2
+    elif kind == 'value-next-float':
+        # the smallest possible difference: one value replaced by the next representable double
+        if not nz:
+            return None
+        i, j = nz[0]
+        d.A[i, j] = np.nextafter(A[i, j], np.inf)
+    elif kind == 'value-tiny':
+        # a relative difference of 1e-10 (far below any "close enough" tolerance, still another number)
+        if not nz:
+            return None
+        i, j = nz[-1]
+        d.A[i, j] = A[i, j] * (1.0 + 1e-10)
+        if d.A[i, j] == A[i, j]:
+            return None
     elif kind == 'value-to-zero':
         if not nz:
             return None
@@ -486,7 +500,7 @@ def differ(c, typ, kind):
     return (c, typ), (d, typ)
 
 
-DIFFS = ['value', 'value-to-zero', 'zero-to-value', 'value-moved', 'obs-id', 'samp-id', 'order-ids-only',
+DIFFS = ['value', 'value-next-float', 'value-tiny', 'value-to-zero', 'zero-to-value', 'value-moved', 'obs-id', 'samp-id', 'order-ids-only',
          'order-whole-vectors', 'obs-md-entry', 'samp-md-key', 'md-absent', 'type',
          'samp-md-extra-key', 'samp-md-extra-key-rev', 'obs-md-extra-key-rev']
 
